@@ -233,8 +233,10 @@ impl RaftWal<FileWriter> {
         }
 
         let file = File::open(path)?;
+        let file_len = file.metadata()?.len();
         let mut reader = BufReader::new(file);
         let mut count = 0;
+        let mut offset = 0u64;
         let mut detected_format: Option<bool> = None; // None = unknown, Some(true) = V2, Some(false) = V1
 
         loop {
@@ -246,6 +248,13 @@ impl RaftWal<FileWriter> {
             }
 
             let len = u32::from_le_bytes(len_buf) as usize;
+
+            // A record cannot extend past the end of the file: treat it as a partial write
+            // instead of allocating a buffer for whatever the length field claims.
+            if offset + 8 + len as u64 > file_len {
+                break;
+            }
+            offset += 8 + len as u64;
 
             // Read potential checksum (4 bytes)
             let mut checksum_buf = [0u8; 4];
@@ -516,9 +525,11 @@ impl<W: WalWriter> RaftWal<W> {
     /// Returns an error if reading fails or a checksum mismatch is detected.
     pub fn replay_with_validation(&self, verify_checksums: bool) -> io::Result<Vec<RaftWalEntry>> {
         let file = File::open(&self.path)?;
+        let file_len = file.metadata()?.len();
         let mut reader = BufReader::new(file);
         let mut entries = Vec::new();
         let mut entry_index = 0u64;
+        let mut offset = 0u64;
         let mut detected_format: Option<bool> = None; // None = unknown, Some(true) = V2, Some(false) = V1
 
         loop {
@@ -530,6 +541,13 @@ impl<W: WalWriter> RaftWal<W> {
             }
 
             let len = u32::from_le_bytes(len_buf) as usize;
+
+            // A record cannot extend past the end of the file: treat it as a partial write
+            // instead of allocating a buffer for whatever the length field claims.
+            if offset + 8 + len as u64 > file_len {
+                break;
+            }
+            offset += 8 + len as u64;
 
             // Read potential checksum (4 bytes)
             let mut checksum_buf = [0u8; 4];
